@@ -92,7 +92,9 @@ INEXACT_P1 = tuple(k for k in sorted(P1) if not _exact_nodes(P1[k]))
 DISP = [0.0, 0.5, -0.5, 1.0, -1.0, 0.25, -0.25]
 
 SAMPLE_STYLES = ['oop', 'oop_kw', 'ip', 'ip_kw', 'ip_kwreq', 'dual', 'dual_kwonly', 'vec',
-                 'vec_otypes', 'vec_kw', 'obj', 'obj_ip', 'obj_dual', 'ufunc', 'const']
+                 'vec_otypes', 'vec_kw', 'obj', 'obj_ip', 'obj_dual', 'ufunc', 'const',
+                 'direct_oop', 'direct_ip', 'direct_dual']
+ONLY_1D = ('ufunc', 'direct_oop', 'direct_ip', 'direct_dual')
 
 
 def _scheme_list(d):
@@ -152,7 +154,7 @@ def configs(tier):
     shapes += [list(s) for s in itertools.product((1, 2, 3, 4) if th else (1, 2, 3), repeat=3)]
     for shp in shapes:
         for style in SAMPLE_STYLES:
-            if style == 'ufunc' and len(shp) != 1:
+            if style in ONLY_1D and len(shp) != 1:
                 continue
             for dt in ('f64', 'c128', 'f32'):
                 for gt in (('ud', 'udb', 'nu') if th else ('ud',)):
@@ -168,7 +170,7 @@ def configs(tier):
     # ---- sfunc (sampling_function / point_collocation directly)
     for d in (1, 2, 3):
         for style in SAMPLE_STYLES:
-            if style == 'ufunc' and d != 1:
+            if style in ONLY_1D and d != 1:
                 continue
             for od in (None, 'f64', 'c128', 'f32'):
                 out.append({'kind': 'sfunc', 'd': d, 'style': style, 'out_dtype': od, 'val': []})
@@ -661,6 +663,17 @@ _UFUNCS = [('negative', np.negative, lambda t: -t), ('square', np.square, lambda
            ('absolute', np.absolute, lambda t: abs(t))]
 
 
+def _style_class(style):
+    """Site name of a callable style: styles that share the wrapper's decision share a site."""
+    if style in ('ip', 'ip_kw', 'obj_ip', 'direct_ip'):
+        return 'in-place only:' + style
+    if style == 'ip_kwreq':
+        return 'required keyword-only out'
+    if style == 'dual_kwonly':
+        return 'optional keyword-only out'
+    return style
+
+
 def _subsets(d):
     out = [list(range(d))]
     for k in range(1, d):
@@ -675,12 +688,31 @@ def _cases(style, d, cplx_space, otype):
         for name, c in _CONSTS:
             if name == 'complex' and not cplx_space:
                 continue
-            yield name, (lambda x, c=c: c), {}, (lambda p, c=c: complex(c) if name == 'complex'
-                                                  else float(c))
+            yield name, (lambda x, c=c: c), {}, (lambda p, c=c, name=name: complex(c)
+                                                  if name == 'complex' else float(c))
         return
     if style == 'ufunc':
         for name, uf, sf in _UFUNCS:
             yield name, uf, {}, (lambda p, sf=sf: sf(p[0]))
+        return
+    if style.startswith('direct_'):
+        # 1-d functions written on ``x`` itself (``space.element(lambda x: x * 2)``)
+        for cplx in ((False, True) if cplx_space else (False,)):
+            def val(x, cplx=cplx):
+                v = 2 * x + 0.5
+                return v + 1j * (x - 1) if cplx else v
+            if style == 'direct_oop':
+                f = (lambda x, val=val: val(x))
+            elif style == 'direct_ip':
+                def f(x, out, val=val):
+                    out[:] = val(x)
+            else:
+                def f(x, out=None, val=val):
+                    if out is None:
+                        return val(x)
+                    out[:] = val(x)
+            yield ('direct%s' % (',complex' if cplx else ''), f, {},
+                   (lambda p, val=val: val(p[0])))
         return
     for S in _subsets(d):
         for cplx in ((False, True) if cplx_space else (False,)):
@@ -717,7 +749,7 @@ def _run_sample(cfg):
     d = len(cfg['shape'])
     style = cfg['style']
     dt = NP_DT[cfg['dtype']]
-    site = 'element(callable)[%s]' % style
+    site = 'element(callable)[%s]' % _style_class(style)
     cplx_space = cfg['dtype'] == 'c128'
     where = 'grid=%s shape=%s dtype=%s' % (cfg['grid'], cfg['shape'], cfg['dtype'])
     if any(n == 1 for n in cfg['shape']) and cfg['grid'] == 'udb':
@@ -772,7 +804,7 @@ def _members(d):
     return out
 
 
-def _tensor_case(style, d, val):
+def _tensor_case(style, d, val, cplx=False):
     """(func_or_arr, list of scalar references in C order of the value shape)."""
     full = list(range(d))
     if style == 'list':
@@ -783,14 +815,15 @@ def _tensor_case(style, d, val):
         if len(val) == 2:
             arr = [arr[:val[1]], arr[val[1]:]]
         return arr, [m[1] for m in mem]
-    va, v0 = _val(full, False), _val([0], False)
+    va, v0 = _val(full, cplx), _val([0], cplx)
     if style == 'tuplefunc':
         # "a single function returning an array-like of results", with broadcasting
-        return (lambda x: (va(x), 0.0, v0(x))), [va, (lambda p: 0.0), v0]
+        zero = 0j if cplx else 0.0
+        return (lambda x: (va(x), zero, v0(x))), [va, (lambda p: zero), v0]
     if style == 'arrayfunc':
         def f(x):
-            a, b = np.broadcast_arrays(np.asarray(va(x), dtype=float),
-                                       np.asarray(v0(x), dtype=float))
+            a, b = np.broadcast_arrays(np.asarray(va(x)),
+                                       np.asarray(v0(x)))
             return np.stack([a, b])
         return f, [va, v0]
     if style == 'tensor_ip':
@@ -801,8 +834,8 @@ def _tensor_case(style, d, val):
     if style == 'tensor_dual':
         def f(x, out=None):
             if out is None:
-                a, b = np.broadcast_arrays(np.asarray(va(x), dtype=float),
-                                           np.asarray(v0(x), dtype=float))
+                a, b = np.broadcast_arrays(np.asarray(va(x)),
+                                           np.asarray(v0(x)))
                 return np.stack([a, b])
             out[0] = va(x)
             out[1] = v0(x)
@@ -818,13 +851,19 @@ def _run_sfunc(cfg):
     dom = odl.IntervalProd([0.0] * d, [4.0] * d)
     sdt = NP_DT[od] if od is not None else np.dtype('float64')
     cplx = sdt.kind == 'c'
-    site = 'sampling_function[%s%s]' % (style, ',tensor' if val else '')
+    site = 'sampling_function[%s%s%s]' % (_style_class(style), ',tensor' if val else '',
+                                          ',default out_dtype' if od is None else '')
     where = 'd=%d out_dtype=%s val_shape=%s' % (d, od, list(val))
     mesh = sparse_meshgrid(*[np.array(a) for a in axes])
     pa = np.array(list(itertools.product(*axes))).T.reshape(d, -1)
 
+    if val and style == 'tuplefunc' and od == 'f32':
+        # the result of a tuple-returning function must already have the scalar dtype
+        # (deliberate check "result is of dtype ..., expected ..."): nothing to judge
+        rec.skipped += 1
+        return rec.result()
     if val:
-        func, refs = _tensor_case(style, d, list(val))
+        func, refs = _tensor_case(style, d, list(val), cplx and style != 'list')
         cases = [('tensor', func, {}, refs)]
         out_dtype = None if od is None else (sdt, val)
     else:
@@ -841,12 +880,18 @@ def _run_sfunc(cfg):
             rec.viol(site, 'create_' + _exc(ex), '%s case %s: %r' % (where, label, ex))
             continue
 
+        seen_exc = set()
+
         def conv(name, call, w):
             try:
                 got = call()
             except Exception as ex:
-                rec.viol(site, '%s_%s' % (name, _exc(ex)),
-                         '%s case %s: %r' % (where, label, ex))
+                # one report per distinct failure of a case: the first convention showing it
+                key = type(ex).__name__
+                if key not in seen_exc:
+                    seen_exc.add(key)
+                    rec.viol(site, '%s_%s' % (name, _exc(ex)),
+                             '%s case %s: %r' % (where, label, ex))
                 return
             rec.evals += 1
             got = np.asarray(got)
@@ -868,7 +913,10 @@ def _run_sfunc(cfg):
         conv('collocation', lambda: DU.point_collocation(F, mesh, **kw), want)
         conv('point_array', lambda: F(pa, **kw), wantf)
         if d == 1:
-            conv('point_array', lambda: F(pa[0], **kw), wantf)
+            if style in ONLY_1D:
+                # shape (N,): the callable receives the flat array, so only functions written
+                # on ``x`` itself (not ``x[0]``) are meaningful here
+                conv('flat_point_array', lambda: F(pa[0], **kw), wantf)
         else:
             dense = tuple(np.meshgrid(*[np.array(a) for a in axes], indexing='ij'))
             conv('dense_mesh', lambda: F(dense, **kw), want)
@@ -882,8 +930,10 @@ def _run_sfunc(cfg):
             try:
                 got = F(x, **kw)
             except Exception as ex:
-                rec.viol(site, 'point_' + _exc(ex),
-                         '%s case %s point %s: %r' % (where, label, p.tolist(), ex))
+                key = type(ex).__name__
+                if key not in seen_exc:
+                    rec.viol(site, 'point_' + _exc(ex),
+                             '%s case %s point %s: %r' % (where, label, p.tolist(), ex))
                 break
             rec.evals += 1
             if np.shape(got) != w.shape or not np.array_equal(np.asarray(got), w):
